@@ -389,6 +389,9 @@ def differential(ctx: RunCtx) -> BoundedResult:
                 if name == "register" and obs[0][0] == "ok":
                     for w in worlds:
                         w.registered |= set(args[0])
+                if name == "set_status" and obs[0][0] == "ok" and args[1] in ("SUCCESS", "FAILED", "CONCURRENCY_CONTROLLED_FINAL"):
+                    for w in worlds:     # the orchestrator schedules the auto-purge itself on a final transition
+                        w.purge_scheduled = getattr(w, "purge_scheduled", set()) | {args[0]}
                 if name == "setup_purge":
                     for w in worlds:
                         if args[0] in getattr(w, "purge_scheduled", set()) and not w.tainted:
@@ -425,6 +428,24 @@ def differential(ctx: RunCtx) -> BoundedResult:
             r = random.Random(f"{name}-{ctx.seed}")
             for k in range(3):
                 run_sequence([(name, gen(r))], f"single {name}#{k}")
+        # protocol scenarios that random sequences hit too rarely (expiry and re-take of a claim, purge with waiters, retry bookkeeping)
+        reg_all = [("upsert", (list(range(N_INV)),)), ("register", (list(range(N_INV)), "r1"))]
+        scenarios = {
+            "claim-expires-and-is-retaken": [("claim", ("run-a", 1)), ("claim", ("run-a", 1)), ("tick", (10.0,)), ("claim", ("run-a", 30)), ("claim", ("run-a", 30)),
+                                             ("tick", (10.0,)), ("claim", ("run-a", 30)), ("tick", (70.0,)), ("claim", ("run-a", 1))],
+            "purge-of-a-final-invocation-with-late-waiters": reg_all + [
+                ("set_status", (0, "PENDING", "r1")), ("set_status", (0, "RUNNING", "r1")), ("set_status", (0, "SUCCESS", "r1")),
+                ("wait", (2, [0])), ("wait", (3, [2])), ("blocking", (10,)), ("tick", (70.0,)), ("auto_purge", ()), ("blocking", (10,)), ("count", (None, None))],
+            "retry-bookkeeping": reg_all + [("set_status", (1, "PENDING", "r2")), ("set_status", (1, "RUNNING", "r2")), ("set_status", (1, "RETRY", "r2")),
+                                            ("incr_retries", (1,)), ("incr_retries", (1,)), ("set_status", (1, "PENDING", "r1")), ("tick", (10.0,)), ("pending_recovery", ())],
+            "cron-cas-sequence": [("cron_cas", ("c1", 0, "none")), ("cron_cas", ("c1", 60, "none")), ("cron_cas", ("c1", 60, "stored")), ("cron_get", ("c1",)),
+                                  ("cron_cas", ("c1", 0, "other")), ("cron_cas", ("c1", 0, "uncond")), ("cron_get", ("c1",))],
+            "heartbeats-and-dead-owner": reg_all + [("heartbeat", (["r1", "r2"], True)), ("set_status", (0, "PENDING", "r1")), ("set_status", (0, "RUNNING", "r1")),
+                                                    ("tick", (70.0,)), ("heartbeat", (["r2"], False)), ("active_runners", (None,)), ("running_recovery", ()),
+                                                    ("active_runners", (True,))],
+        }
+        for label, seq in scenarios.items():
+            run_sequence(seq, f"scenario {label}")
         for s in range(n_seq):
             r = random.Random(rng0.random())
             seq = []
